@@ -1,5 +1,6 @@
 import Mkts.Proto
 import Mkts.Model.Coerce
+import Mkts.Model.CoerceTie
 import Mkts.Model.Store
 /-!
 Driver ops for C14.
@@ -123,7 +124,7 @@ def renderQ (b : Bucket) : String :=
 /-- apply a request with the buckets in the given order; also advances the spec view -/
 def doRequest (st : St) (tag : String) (parts : List Part) : St :=
   let schema := fun k => (findB st.buckets k).map (·.schema)
-  let (err, chan, committed, created) := request schema st.chan parts
+  let (err, chan, committed, created) := request codeVariant schema st.chan parts
   let bs1 := st.buckets ++ created.map (fun c => ⟨c.1, c.2, []⟩)
   let bs2 := putRows bs1 committed
   -- spec: all-or-nothing, by name
@@ -132,17 +133,14 @@ def doRequest (st : St) (tag : String) (parts : List Part) : St :=
   let allValid := parts.all (fun p => match schema p.key with
     | none => true
     | some db => (checkAndCoerce db p.cols).toOption.isSome)
+  -- a failing request commits nothing; the buckets it auto-created for the parts handled before the
+  -- failure stay behind EMPTY (documented residue of the repair: creation is not rolled back)
   let sb1 := if allValid then st.specBuckets ++ (parts.filter (fun p => (findB st.specBuckets p.key).isNone)).map
-      (fun p => ⟨p.key, p.cols.map (·.ds), []⟩) else st.specBuckets
+      (fun p => ⟨p.key, p.cols.map (·.ds), []⟩)
+    else st.specBuckets ++ (created.filter (fun c => (findB st.specBuckets c.1).isNone)).map (fun c => ⟨c.1, c.2, []⟩)
   let sb2 := putRows sb1 (if allValid then specRows.getD [] else [])
-  let reordered := parts.any (fun p => match schema p.key with
-    | some db => names db != p.cols.map (·.ds.name) && (checkAndCoerce db p.cols).toOption.isSome
-    | none => false)
-  let partial_ := parts.length > 1 && !allValid
   { st with buckets := bs2, chan := chan, out := st.out ++ [tag ++ "=" ++ resStr err],
-            spec := st.spec ++ [tag ++ "=" ++ (if allValid then "ok" else resStr err)], specBuckets := sb2,
-            hyps := st.hyps ++ (if reordered then ["columns_reordered"] else []) ++
-                    (if partial_ then ["multi_bucket_request_invalid_part"] else []) }
+            spec := st.spec ++ [tag ++ "=" ++ (if allValid then "ok" else resStr err)], specBuckets := sb2 }
 
 /-- all possible continuations of a step (two for a two-bucket request) -/
 def step (st : St) (s : String) : Option (List St) :=
